@@ -91,3 +91,60 @@ pub fn dec_term(toks: &[&str], i: &mut usize) -> Option<Unifiable> {
         _ => None,
     }
 }
+
+// ---------------------------------------------------------------- goals and rules
+
+pub fn enc_goal(g: &Goal, out: &mut String) {
+    match g {
+        Goal::Nil => out.push_str("G0"),
+        Goal::ComplexGoal(t) => { out.push_str("Gc "); enc_term(t, out); },
+        Goal::BuiltInGoal(b) => {
+            match &b.terms {
+                None => out.push_str(&format!("Gb:{}:0:0", hex(&b.functor))),
+                Some(ts) => { out.push_str(&format!("Gb:{}:1:{}", hex(&b.functor), ts.len())); for t in ts { out.push(' '); enc_term(t, out); } },
+            }
+        },
+        Goal::OperatorGoal(op) => {
+            let (tag, gs) = match op {
+                Operator::And(gs) => ("Ga", gs), Operator::Or(gs) => ("Go", gs),
+                Operator::Time(gs) => ("Gt", gs), Operator::Not(gs) => ("Gn", gs),
+            };
+            out.push_str(&format!("{}:{}", tag, gs.len()));
+            for g in gs { out.push(' '); enc_goal(g, out); }
+        },
+    }
+}
+
+pub fn enc_rule(r: &Rule, out: &mut String) {
+    out.push_str("R "); enc_term(&r.head, out); out.push(' '); enc_goal(&r.body, out);
+}
+
+pub fn dec_goal(toks: &[&str], i: &mut usize) -> Option<Goal> {
+    let t = *toks.get(*i)?; *i += 1;
+    let p: Vec<&str> = t.split(':').collect();
+    match p[0] {
+        "G0" => Some(Goal::Nil),
+        "Gc" => Some(Goal::ComplexGoal(dec_term(toks, i)?)),
+        "Gb" => {
+            let name = unhex(p.get(1)?)?;
+            let has = *p.get(2)? == "1";
+            let n: usize = p.get(3)?.parse().ok()?;
+            if !has { return Some(Goal::BuiltInGoal(BuiltInPredicate::new(name, None))); }
+            let mut v = vec![]; for _ in 0..n { v.push(dec_term(toks, i)?); }
+            Some(Goal::BuiltInGoal(BuiltInPredicate::new(name, Some(v))))
+        },
+        "Ga" | "Go" | "Gt" | "Gn" => {
+            let n: usize = p.get(1)?.parse().ok()?;
+            let mut v = vec![]; for _ in 0..n { v.push(dec_goal(toks, i)?); }
+            Some(Goal::OperatorGoal(match p[0] { "Ga" => Operator::And(v), "Go" => Operator::Or(v), "Gt" => Operator::Time(v), _ => Operator::Not(v) }))
+        },
+        _ => None,
+    }
+}
+
+pub fn dec_rule(toks: &[&str], i: &mut usize) -> Option<Rule> {
+    if *toks.get(*i)? != "R" { return None; }
+    *i += 1;
+    let head = dec_term(toks, i)?; let body = dec_goal(toks, i)?;
+    Some(Rule{head, body})
+}
